@@ -157,7 +157,19 @@ def recover (dict : List (Bytes × String)) (fs : FS) : Recovered :=
         (match td with | some n => [s!"T:{dir}{b}.dat:{n}"] | none => []) ++
         (match ti with | some n => [s!"T:{dir}{b}.idx:{n}"] | none => [])
       (tp, loadPartition crc32c segs snapBytes.isSome snap, torn, tr)
-    let pTok := loaded.flatMap fun (tp, pt, _, _) =>
+    -- in-progress transactions restored from session_state.json (present only after a clean Close)
+    let sess : List (String × Nat) :=
+      match (content (dataDir ++ "/session_state.json")).bind (lookup dict) with
+      | some ann =>
+        match ann.splitOn "," with
+        | ["sess", l] => if l == "-" then [] else (l.splitOn ";").filterMap fun x =>
+            match x.splitOn "@" with
+            | [_, tp, f] => some (tp, f.toNat!)
+            | _ => none
+        | _ => []
+      | none => []
+    let pTok := loaded.flatMap fun (tp, pt0, _, _) =>
+      let pt : Part := { pt0 with lso := sessionLso ((sess.filter (fun (x : String × Nat) => x.1 == tp)).map (fun x => x.2)) pt0.lso }
       let bs := pt.batches.map (·.1)
       let rc := bs.filter (fun b => b.first < pt.lso)
       let ab := match rc.getLast? with
